@@ -971,7 +971,7 @@ func runChainCase(r *Runner, cc chainCase, idx int) {
 			impl["error"] = "other: " + err.Error()
 		}
 		if results != nil {
-			impl["results_with_error"] = len(results)
+			impl["results_with_error_defect"] = fmt.Sprintf("error_returned_together_with_results: %d results next to %v", len(results), err)
 		}
 		r.Submit(c)
 		return
